@@ -3,6 +3,7 @@ sync-relevant field for every value shape; rows written by older releases still 
 from pyvc.dsl import *   # noqa
 from cloudsync.sync.state import SyncEntry, SyncState, TRASHED, MISSING, EXISTS, UNKNOWN, CORRUPT
 from cloudsync.types import IgnoreReason
+import msgpack
 
 
 @lemma(props=["C08", "C06"], configs="none", raises=["AssertionError"])
@@ -161,6 +162,11 @@ def stored_data_is_written_under_its_tag(w: World, tag: opt_str, sid: int, has_r
         check(len(names) >= 1, "the value is written")
         for c in calls("storage:update"):
             check(has_row and c.args[0] == tag and c.args[1] == new and c.args[2] == sid, "an update goes to the tag's own row with the new value")
+        if has_row:
+            check(names[0] == "storage:update", "an existing row is updated in place first")
+            if len(calls("storage:create")) > 0:
+                check(len(calls("storage:update")) == 1 and calls("storage:update")[0].ok and calls("storage:update")[0].result == 0,
+                      "a second row is created only if the back end reported that the update changed no row")
         for c in calls("storage:create"):
             check(c.args[0] == tag and c.args[1] == new, "a create stores the new value under the tag")
             check(state.data_id[tag] == c.result, "and the id cache names the new row")
@@ -168,3 +174,46 @@ def stored_data_is_written_under_its_tag(w: World, tag: opt_str, sid: int, has_r
             check(state.data_id[tag] == sid, "the id cache names the row that was updated")
         if not has_row:
             check(names == ["storage:create"], "no row yet: exactly one create")
+
+
+@lemma(props=["C08"], configs="none", raises=["AssertionError"])
+def legacy_rows_still_load(w: World, sid: int, lex: int, trashed_word: bool, discarded_flag: bool, conflicted_flag: bool):
+    """L8.5: rows written by older releases still load: a boolean / None existence becomes EXISTS / TRASHED / UNKNOWN, the
+    old ignore word 'trashed' and the old 'discarded' / 'conflicted' flags become the corresponding ignore reason, missing
+    'size' / 'mtime' / '_saved_exists' / 'priority' keys load as None / 0; every other field is taken as stored"""
+    state = w.state
+    e = w.entry("e")
+    for s in (0, 1):
+        assume(e[s].changed is not False)
+    assume(0 <= lex and lex <= 2)
+    legacy_exists = True if lex == 0 else (False if lex == 1 else None)
+    d0 = e[0].serialize()
+    d1 = e[1].serialize()
+    d0["exists"] = legacy_exists
+    del d0["size"]
+    del d0["mtime"]
+    del d0["_saved_exists"]
+    ser = {"side0": d0, "side1": d1}
+    if trashed_word:
+        ser["ignored"] = "trashed"
+    elif discarded_flag:
+        ser["discarded"] = True
+    elif conflicted_flag:
+        ser["conflicted"] = True
+    row = msgpack.dumps(ser, use_bin_type=True)
+    state._loading = True
+    e2 = SyncEntry(state, None, (sid, row))
+    state._loading = False
+    want = EXISTS if legacy_exists is True else (TRASHED if legacy_exists is False else UNKNOWN)
+    check(e2[0].exists == want, "legacy boolean / None existence is translated")
+    check(e2[0].size is None and e2[0].mtime is None and e2[0]._saved_exists is None, "missing newer keys load as None")
+    check(e2[0].oid == e[0].oid and e2[0].path == e[0].path and e2[0].hash == e[0].hash and e2[0].sync_hash == e[0].sync_hash,
+          "the other fields are taken as stored")
+    check(e2[1].exists == e[1].exists and e2[1].oid == e[1].oid, "a current-format side is unaffected")
+    if trashed_word or discarded_flag:
+        check(e2.ignored == IgnoreReason.DISCARDED, "'trashed' / discarded -> DISCARDED")
+    elif conflicted_flag:
+        check(e2.ignored == IgnoreReason.CONFLICT, "conflicted -> CONFLICT")
+    else:
+        check(e2.ignored == IgnoreReason.NONE, "no reason stored: not ignored")
+    check(e2.priority == 0, "no stored priority: normal priority")
